@@ -121,5 +121,20 @@ P = P5("C05", CONFIGS, corpus_cases=corpus_cases, quick_cases=8, thorough_cases=
              "once, directory iff listable, file iff readable, listed names are bare children, walk_dir = all descendants "
              "exactly once with every directory before its contents); everything is also compared with the model"),
        assumptions=[])
-generate, corpus, run_and_compare, known = P.generate, P.corpus, P.run_and_compare, P.known
-RULE, ASSUMPTIONS, BUILDS = P.RULE, P.ASSUMPTIONS, P.BUILDS
+generate, corpus, known = P.generate, P.corpus, P.known
+ASSUMPTIONS, BUILDS = P.ASSUMPTIONS, P.BUILDS
+RULE = P.RULE + ("; EmbeddedFS: every observer on every path of the embedded fixture's universe (files, implied directories sharing "
+                 "ancestors at depth 2-4, absent siblings), listings and walks, against the model and against a PhysicalFS on the same folder")
+
+
+def run_and_compare(cases, tier):
+    """the observers of an EmbeddedFS tell one story too (it builds its directory index itself)"""
+    import random
+    from props import c18
+    res = P.run_and_compare(cases, tier)
+    er = c18.run_and_compare(c18.gen_cases(random.Random(5), "quick"), "quick")
+    for d in er["disagreements"]:
+        d["note"] = "EmbeddedFS: " + str(d.get("note", ""))
+    res["disagreements"] += er["disagreements"]
+    res["stats"].setdefault("distribution", {})["embedded_observations"] = er["stats"].get("evaluations", 0)
+    return res
